@@ -93,6 +93,8 @@ structure Side where
   req : Nat → Option (List Nat)
   /-- the frame slots of a callee that no argument may name: its parameters and the trampoline's result -/
   rsv : Nat → List Var
+  /-- `called_functions`: the functions some function of the module calls -/
+  called : Nat → Bool
 
 mutual
 def okM (S : Side) : Expr → Bool
@@ -107,7 +109,7 @@ def okM (S : Side) : Expr → Bool
   | .tern c t f => okM S c && okM S t && okM S f && !isMin t && !isMin f
   | .seq es => okMSeq S es
   | .call f args =>
-    okMArgs S args &&
+    okMArgs S args && S.called f &&
     (match S.sig f, S.req f with
       | some (_, ps), some gs => refArgsOK (S.rsv f) args ps && gs.all (fun g => S.vis (.glob g))
       | _, _ => false)
